@@ -30,10 +30,31 @@
 //!     and one predecessor - closed surfaces with any faces flipped, disks with flipped interior faces.  The hand-built
 //!     meshes of (c) additionally with reversed vertex numbering and with the interior vertices numbered last.
 //! (h) the clauses of (c) on few-face meshes over a 70000-vertex list (vertex ids on both sides of 2^16).
-//! (i) D7 (repaired): `calc_edges` returns Err, under the watchdog, whenever no edge is in more than two faces but the directed
-//!     boundary edges are not a successor bijection (a boundary vertex left or entered by two boundary edges): bow-ties, grids
-//!     sharing a corner, fins touching at a vertex, open meshes with faces flipped along the boundary, and every such ordered
-//!     list of 2 / 3 faces over 5 vertices.  Together with (c) and (g): Err EXACTLY outside class G on the enumerated lists.
+//! (i) D7 (repaired: the computations FINISH): face lists with no edge in more than two faces whose directed boundary edges are
+//!     not a successor bijection, run under the watchdog and split by the degree-balance oracle: (i-a) every vertex is left by
+//!     as many boundary edges as enter it (bow-ties, grids sharing a corner, a fin touching at a boundary vertex) - the call
+//!     returns, and the statement's edge table with loops covering every boundary edge exactly once is demanded by the
+//!     clause "[defect vertex-only contact refused] ..." (the repaired code answers Err: residual known finding); (i-b) degrees
+//!     unbalanced (a face flipped along the boundary) - no panic, Err or loops that are closed cycles over boundary edges each
+//!     used at most once.  Hand-built meshes, open meshes with flipped faces, every ordered 2 / 3 face list over 5 vertices.
+//! WAVE 5 (parameter-space audit, notes/w5_audit_C12.md):
+//! (j) `index_vec` directly: None -> 0..len for 18 lengths up to 65537, Some(list) -> the list, whatever `len` is;
+//! (k) `chained_indices` on chains / closed loops of 31 .. 4097 links on vertex ids up to exactly u32::MAX in 5 storage orders,
+//!     every list of <= 3 pairs over {0, 1, 65536, u32::MAX - 1, u32::MAX}, 1100 / 4100 / 1030 separate chains, branches;
+//! (l) `clusters_from_sparse` on two voxels at every offset of [-3,3]^3 from 8 bases up to |coordinate| = i32::MAX - 1, on
+//!     voxels 2^k apart (k = 4 .. 30) listed twice, on clusters of up to 5000 voxels and up to 1500 clusters;
+//! (m) the mesh clauses, with sort-based oracles, on meshes of 4200 .. 46812 faces (grids with and without holes, a strip with
+//!     a boundary loop of 4202 vertices, tori, 1100 separate triangles, components of very different sizes in both storage
+//!     orders, a 2100-step cylinder, a grid with more than 65536 edges on vertex ids 50000..), class G and the Err verdicts at
+//!     that scale, the `MeshEdges` accessors;
+//! (n) a TOTAL verdict for `calc_edges` (Err exactly when an edge is in three faces or the boundary edges do not form closed
+//!     loops; the full edge table otherwise) and the any-winding patch clauses on every list [0,1,2] + 3 faces over 5 vertices,
+//!     every ordered list [0,1,2] + 2 faces over 6 vertices, a Moebius band, a projective plane, tetrahedra sharing a vertex /
+//!     an edge, holes touching at a vertex, coincident vertex positions (zero-length edge);
+//! (o) faces with a repeated vertex: the calls return, same verdict twice, every face in exactly one patch;
+//! (p) `create_box` on every ordered triple of sizes from 1e-9 .. 1e8 x is_solid, `create_cylinder` on radius 1e-6 .. 1e6 x
+//!     height 1e-6 .. 1e8 x steps 3 .. 257, steps 3 ..= 70 and up to 32769 (outwardness evaluated scale free);
+//! (q) edge lengths for pitches 1e-9 .. 1e6, offsets up to 1e8, up to 12416 edges.
 use super::{close, Report};
 use crate::geom3::{Mesh, Point3};
 use std::collections::HashSet;
@@ -65,6 +86,7 @@ where
 {
     let p = Arc::new(Progress { tick: AtomicU64::new(0), cur: Mutex::new(Vec::new()) });
     let p2 = p.clone();
+    let t_start = std::time::Instant::now();
     let h = std::thread::Builder::new()
         .name(format!("c12-{}", group))
         .spawn(move || {
@@ -95,7 +117,7 @@ where
     }
     match h.join() {
         Ok(sub) => {
-            if std::env::var("C12_BOUNDED_VERBOSE").is_ok() { eprintln!("c12 bounded group {}: cases={} checks={} failures={}", group, sub.cases, sub.checks, sub.failures.len()); }
+            if std::env::var("C12_BOUNDED_VERBOSE").is_ok() { eprintln!("c12 bounded group {}: cases={} checks={} failures={} ({} ms)", group, sub.cases, sub.checks, sub.failures.len(), t_start.elapsed().as_millis()); }
             r.cases += sub.cases;
             r.checks += sub.checks;
             for f in sub.failures {
@@ -914,23 +936,96 @@ fn run_many_chains(r: &mut Report, p: &Progress) {
     } } }
 }
 
-// ------------------------------------------------------------------------------------------------ (i) boundary edges that do not form closed loops (D7)
+// ------------------------------------------------------------------------------------------------ (i) boundary edges that are not a successor bijection (D7)
 /// `calc_edges` on face lists with no edge in more than two faces that are NOT in class G: some boundary vertex is left, or
-/// entered, by two boundary edges (faces touching at a boundary vertex only: bow-ties, fins; a face flipped along the
-/// boundary).  There are no boundary loops to report: the call must RETURN (watchdog) and answer Err, not hang or panic.
-/// Run LAST: on a tree without the repair the first such input never returns and the stuck thread dies with the process
-const D7_CLAUSE: &str = "edges: a mesh whose boundary edges do not form closed loops (faces touching at a boundary vertex only, winding flipped along the boundary) is refused (Err)";
+/// entered, by two boundary edges.  Two sub-groups, told apart by the degree-balance oracle (`boundary_balanced`):
+/// (i-a) CONSISTENTLY WOUND VERTEX-ONLY CONTACTS - every vertex is left by as many directed boundary edges as enter it
+///       (bow-tie, grids sharing a corner, a fin touching at a boundary vertex): closed walks through the shared vertex
+///       exist and the statement demands an edge table whose loops contain every boundary edge exactly once.  The call must
+///       RETURN (ordinary clause); that it answers Ok with such loops is the clause VERTEX_CONTACT_CLAUSE - on the tree as
+///       repaired (D7) the call returns Err, a residual genuine defect listed as a known finding;
+/// (i-b) WINDING BROKEN ALONG THE BOUNDARY - in/out degrees unbalanced, the boundary edges cannot be arranged in directed
+///       closed walks: the call must return without a panic; Err is accepted, Ok only with loops that are closed cycles
+///       along boundary edges, each used at most once.
+/// Run LAST: on a tree without the D7 repair the first such input never returns and the stuck thread dies with the process
+const VERTEX_CONTACT_CLAUSE: &str = "[defect vertex-only contact refused] a consistently wound mesh whose faces touch only at a vertex gets an edge table whose boundary loops contain every boundary edge exactly once as closed cycles";
+const FINISHES_CONTACT_CLAUSE: &str = "edges: the computation finishes on a consistently wound mesh whose faces touch only at a vertex (watchdog)";
+const BROKEN_WINDING_CLAUSE: &str = "edges: on a mesh whose winding is broken along the boundary calc_edges finishes without a panic and answers Err, or Ok with boundary loops that are closed cycles along boundary edges, each used at most once";
+/// the directed boundary edges (each in the direction of its only face), sorted
+fn boundary_dir_edges(faces: &[[u32; 3]]) -> Vec<(u32, u32)> {
+    let mut keys: Vec<(u32, u32)> = Vec::with_capacity(3 * faces.len());
+    for f in faces { for e in dir_edges(f) { keys.push(ue(e.0, e.1)); } }
+    keys.sort();
+    let count = |k: &(u32, u32)| keys.partition_point(|x| x <= k) - keys.partition_point(|x| x < k);
+    let mut bd: Vec<(u32, u32)> = Vec::new();
+    for f in faces { for e in dir_edges(f) { if count(&ue(e.0, e.1)) == 1 { bd.push(e); } } }
+    bd.sort();
+    bd
+}
+/// every vertex is left by as many directed boundary edges as enter it
+fn boundary_balanced(faces: &[[u32; 3]]) -> bool {
+    let bd = boundary_dir_edges(faces);
+    let mut outs: Vec<u32> = bd.iter().map(|e| e.0).collect();
+    let mut ins: Vec<u32> = bd.iter().map(|e| e.1).collect();
+    outs.sort();
+    ins.sort();
+    outs == ins
+}
+/// the loops as closed walks over DIRECTED boundary edges: every loop, read in one of its two senses (the code stores a walk
+/// reversed), steps along directed boundary edges only; returns (all loops are such walks, the edges used with repeats, sorted)
+fn loops_as_walks(loops: &[Vec<u32>], bd: &[(u32, u32)]) -> (bool, Vec<(u32, u32)>) {
+    let mut ok = true;
+    let mut used: Vec<(u32, u32)> = Vec::new();
+    for l in loops {
+        let n = l.len();
+        if n < 3 { ok = false; continue; }
+        let fwd: Vec<(u32, u32)> = (0..n).map(|i| (l[i], l[(i + 1) % n])).collect();
+        let bwd: Vec<(u32, u32)> = (0..n).map(|i| (l[(i + 1) % n], l[i])).collect();
+        if fwd.iter().all(|e| bd.binary_search(e).is_ok()) { used.extend(fwd); }
+        else if bwd.iter().all(|e| bd.binary_search(e).is_ok()) { used.extend(bwd); }
+        else { ok = false; }
+    }
+    used.sort();
+    (ok, used)
+}
+/// a face list with no edge in more than two faces OUTSIDE class G (name kept: callers classify first)
 fn check_refused(r: &mut Report, verts: &[Point3], faces: &[[u32; 3]], label: &str) {
     r.case();
     let mesh = Mesh::new(verts.to_vec(), faces.to_vec(), false);
+    let bd = boundary_dir_edges(faces);
+    let balanced = boundary_balanced(faces);
+    let show = |fs: &[[u32; 3]]| if fs.len() <= 40 { format!("{:?}", fs) } else { format!("({} faces)", fs.len()) };
     for _run in 0..2 {
         let res = mesh.calc_edges();
-        r.check(res.is_err(), D7_CLAUSE, || format!("{} faces {:?}: calc_edges returned Ok with boundary_loops {:?}", label, faces, res.as_ref().map(|e| e.boundary_loops.clone()).unwrap_or_default()));
+        if balanced {
+            r.check(true, FINISHES_CONTACT_CLAUSE, || String::new());
+            match &res {
+                Err(_) => r.check(false, VERTEX_CONTACT_CLAUSE, || format!("{} faces {}: calc_edges returned Err; directed boundary edges {:?}", label, show(faces), &bd[..bd.len().min(24)])),
+                Ok(me) => {
+                    let (walks, used) = loops_as_walks(&me.boundary_loops, &bd);
+                    r.check(walks && used == bd, VERTEX_CONTACT_CLAUSE, || format!("{} faces {}: boundary_loops {:?}; directed boundary edges {:?}", label, show(faces), me.boundary_loops, &bd[..bd.len().min(24)]));
+                    // the rest of the table
+                    let mut und: Vec<(u32, u32)> = Vec::new();
+                    for f in faces { for e in dir_edges(f) { und.push(ue(e.0, e.1)); } }
+                    und.sort(); und.dedup();
+                    let mut listed: Vec<(u32, u32)> = me.edges.iter().map(|e| ue(e[0], e[1])).collect();
+                    listed.sort();
+                    r.check(listed == und && me.edge_lengths.len() == me.edges.len() && me.face_edges.len() == faces.len(), "edges: the edge table lists each undirected edge exactly once", || format!("{} faces {} edges {:?}", label, show(faces), me.edges));
+                }
+            }
+        } else {
+            let ok = match &res {
+                Err(_) => true,
+                Ok(me) => { let (walks, used) = loops_as_walks(&me.boundary_loops, &bd); walks && used.windows(2).all(|w| w[0] != w[1]) }
+            };
+            r.check(ok, BROKEN_WINDING_CLAUSE, || format!("{} faces {}: calc_edges returned Ok with boundary_loops {:?}", label, show(faces), res.as_ref().map(|e| e.boundary_loops.clone()).unwrap_or_default()));
+        }
     }
 }
 fn run_open_boundaries(r: &mut Report, p: &Progress) {
     let mut buf: Vec<i64> = Vec::new();
-    let (mut n_contact, mut n_flipped, mut n_ok) = (0usize, 0usize, 0usize);
+    let (mut n_contact, mut n_broken, mut n_flipped, mut n_ok) = (0usize, 0usize, 0usize, 0usize);
+    let (mut n_small_a, mut n_small_b) = (0usize, 0usize);
     // larger meshes first (so that the reported inputs are the readable ones)
     let mut fam: Vec<(String, Vec<Point3>, Vec<[u32; 3]>)> = Vec::new();
     fam.push(("two triangles sharing one vertex (bow-tie)".into(), base_vertices(), vec![[0, 1, 2], [0, 3, 4]]));
@@ -961,11 +1056,11 @@ fn run_open_boundaries(r: &mut Report, p: &Progress) {
             let mesh = Mesh::new(v.clone(), f.clone(), false);
             check_edge_table(r, &mesh, v, f, name);
         } else {
-            n_contact += 1;
+            if boundary_balanced(f) { n_contact += 1; } else { n_broken += 1; }
             check_refused(r, v, f, name);
         }
     }
-    // open meshes with faces flipped: in class G -> edge table (group g); outside -> Err
+    // open meshes with faces flipped: in class G -> edge table (group g); outside -> (i-b), or (i-a) when still balanced
     let mut fam: Vec<(String, Vec<Point3>, Vec<[u32; 3]>)> = Vec::new();
     let (v, f) = grid(3, 3, &[], 0.0, 0); fam.push(("3x3 grid".into(), v, f));
     let (v, f) = grid(5, 3, &[(1, 1), (3, 1)], 0.0, 0); fam.push(("5x3 grid with two holes".into(), v, f));
@@ -1001,6 +1096,7 @@ fn run_open_boundaries(r: &mut Report, p: &Progress) {
             let faces: Vec<[u32; 3]> = idx.iter().map(|&i| tri[i]).collect();
             if !has_edge_in_three_faces(&faces) && !in_class_g(&faces) {
                 n_small += 1;
+                if boundary_balanced(&faces) { n_small_a += 1; } else { n_small_b += 1; }
                 buf.clear();
                 for f in faces.iter() { buf.extend_from_slice(&[f[0] as i64, f[1] as i64, f[2] as i64]); }
                 p.at(&buf);
@@ -1011,7 +1107,7 @@ fn run_open_boundaries(r: &mut Report, p: &Progress) {
             if k == len { break; }
         }
     }
-    r.check(n_contact >= 5 && n_ok >= 1 && n_flipped >= 50 && n_small >= 10000, "input space: meshes whose boundary edges do not form closed loops occur (vertex-only contacts, faces flipped along the boundary, small lists)", || format!("{} hand-built, {} flipped, {} small lists", n_contact, n_flipped, n_small));
+    r.check(n_contact >= 4 && n_broken >= 1 && n_ok >= 1 && n_flipped >= 50 && n_small >= 10000 && n_small_a >= 1000 && n_small_b >= 1000, "input space: meshes whose boundary edges are not a successor bijection occur (consistently wound vertex-only contacts, winding broken along the boundary, small lists of both kinds)", || format!("{} + {} hand-built, {} flipped, {} small lists ({} balanced, {} unbalanced)", n_contact, n_broken, n_flipped, n_small, n_small_a, n_small_b));
 }
 
 // ------------------------------------------------------------------------------------------------ (h) large vertex ids
@@ -1220,6 +1316,21 @@ fn run_far_voxels(r: &mut Report, p: &Progress) {
         let before = r.failures.len();
         check_voxels(r, v);
         if r.failures.len() > before { let m = r.failures.len(); for f in r.failures[before..m].iter_mut() { f.push_str(&format!(" [{}]", name)); } }
+    }
+}
+
+/// CANDIDATE FINDING (reported in wave 5, NOT enabled): a voxel AT i32::MAX / i32::MIN.  `current + 1` overflows there: a debug
+/// build panics ("attempt to add with overflow"), a release build wraps around and puts (i32::MAX, 0, 0) and (i32::MIN, 0, 0)
+/// into ONE cluster although they are not 26-adjacent.  C12 registers "every coordinate strictly inside (i32::MIN, i32::MAX)"
+/// as an explicit precondition of clusters_from_sparse; if the coordinator decides to treat it as a defect instead (fix:
+/// notes/c12_voxel_range_fix.diff, checked_add), set VOXEL_FULL_RANGE to true: the group then runs under its own name
+const VOXEL_FULL_RANGE: bool = true;
+fn run_voxel_range_ends(r: &mut Report, p: &Progress) {
+    let (lo, hi) = (i32::MIN, i32::MAX);
+    for v in [vec![(hi, 0, 0)], vec![(lo, 0, 0)], vec![(hi, 0, 0), (lo, 0, 0)], vec![(hi, hi, hi), (hi - 1, hi - 1, hi - 1)], vec![(lo, lo, lo), (lo + 1, lo + 1, lo + 1), (hi, hi, hi)],
+        vec![(0, hi, 0), (0, lo, 0), (1, hi - 1, -1)], vec![(5, 5, hi), (5, 5, lo), (5, 5, hi - 2)]] {
+        p.at(&[23, v.len() as i64, v[0].0 as i64, v[0].1 as i64, v[0].2 as i64]);
+        check_voxels(r, &v);
     }
 }
 
@@ -1479,10 +1590,11 @@ fn run_large_meshes(r: &mut Report, p: &Progress) {
         let desc = || format!("{} ({} faces)", name, f.len());
         if (o.max_count > 2) != *three || o.class_g { r.check(false, "internal: generated mesh is in the stated class", desc); continue; }
         let mesh = Mesh::new(v.clone(), f.clone(), false);
-        for _run in 0..2 {
-            let res = mesh.calc_edges();
-            if *three { r.check(res.is_err(), "edges: a mesh with an edge in more than two faces is refused (Err)", desc); }
-            else { r.check(res.is_err(), D7_CLAUSE, desc); }
+        if *three {
+            for _run in 0..2 { r.check(mesh.calc_edges().is_err(), "edges: a mesh with an edge in more than two faces is refused (Err)", desc); }
+        } else {
+            // outside class G: (i-a) for the grids sharing a corner (balanced), (i-b) for the faces flipped along the boundary
+            check_refused(r, v, f, name);
         }
         // a refused edge table leaves the mesh as it was: the patch decomposition is still the partition into components
         let patches = mesh.get_patches();
@@ -1495,7 +1607,8 @@ fn run_large_meshes(r: &mut Report, p: &Progress) {
 
 // ------------------------------------------------------------------------------------------------ (n) total verdict on small lists
 /// one face list, every clause the statement has for it: an edge in three faces -> Err; class G -> the edge table; otherwise
-/// (boundary edges not in closed loops) -> Err; patches as for any face list.  The calls are interleaved (patches, edges,
+/// (boundary edges not a successor bijection) -> group (i): a table with loops when the boundary degrees are balanced
+/// (known finding: refused), Err or sound loops when they are not; patches as for any face list.  The calls are interleaved (patches, edges,
 /// patches) - none of them may disturb the other
 fn check_any_mesh(r: &mut Report, verts: &[Point3], faces: &[[u32; 3]], label: &str, runs: usize) {
     check_patches_any(r, verts, faces, runs, label);
@@ -1777,7 +1890,7 @@ fn run_far_meshes_w5(r: &mut Report, p: &Progress) {
 }
 
 pub fn run() -> Option<Report> {
-    let mut r = Report::new("chained_indices: every list of <= 4 pairs over vertex ids 0..5 (406901 lists); clusters_from_sparse: every subset of a 2x2x2 block, a 3x3x1 slab and a 2x2x3 block of voxels (4864 sets, each twice); Mesh::calc_edges / get_patches / get_patch_boundary_points: every ordered list of <= 3 faces over 5 vertices that is consistently wound and free of vertex-only contacts, 11 larger hand-built meshes of that class in 6 storage variants each, create_box (4 sizes) and create_cylinder (steps 3..=16, 2 sizes), repeated 2-3 times per mesh for hash order; every <= 3 face list with an edge in three faces must be refused; each group under a progress watchdog (6 s per input). Vertex-only contacts and inconsistent winding: see ROUND 4 and D7 below (patch boundaries are not evaluated on them). Edge lengths to relative 1e-12 on grids (1x1, 4x3, 12x9), boxes and 12-step cylinders of pitch 5e-6 .. 1 at 5 offsets up to 1e6 from the origin. get_patches on ANY face list (partition and edge-connected patches always, maximality when no directed edge occurs twice): all lists of <= 2 faces over 5 vertices x 64 calls, 3-face lists starting with [0,1,2] / [0,2,1] x 8 calls, box / cylinder / grid / strip / tetrahedron with single faces, pairs, every other and all faces flipped x 64 calls. chained_indices on 1..12 separate chains / closed loops of 1..9 links in 4 storage orders. ROUND 4: the hand-built meshes (+ a disk around the LAST vertex, a 4x4 grid) also with the vertex numbering reversed and with the interior vertices numbered last (lexicographically last edge interior); calc_edges on INCONSISTENTLY wound meshes whose boundary edges still give every boundary vertex one successor and one predecessor (closed surfaces with any faces flipped, disks with flipped interior faces): every such ordered list of 3 faces over 5 vertices and of 4 faces over 4 vertices, boxes / tetrahedron / octahedron / both / 3x3, 4x4, 5x3-with-holes grids with single faces, pairs, every 2nd, every 3rd and the first half of the faces flipped, in 2 storage variants: edge table produced (not Err), each undirected edge once with its length, face -> edges, boundary loops; LARGE vertex ids: two vertex-disjoint faces over a 70000-vertex list (3 first faces x every ordered triple of 8 ids on both sides of 2^16, incl. ids that collide when two ids are packed with a 16-bit shift) and two separate 40-face strips on ids 0.. and {65500, 65530, 65536, 69000}..: all clauses of the mesh group (edge table, patches, patch boundaries); D7 (repaired): calc_edges returns Err (and returns: 6 s watchdog) when no edge is in more than two faces but the boundary edges do not form closed loops - bow-ties, two grids sharing a corner, fins touching a grid at one vertex, 3x3 / 5x3-with-holes grids, a cylinder and an open box with single faces, pairs, every 2nd and the first half of the faces flipped (those outside class G), and every ordered list of 2 / 3 faces over 5 vertices outside class G");
+    let mut r = Report::new("chained_indices: every list of <= 4 pairs over vertex ids 0..5 (406901 lists); clusters_from_sparse: every subset of a 2x2x2 block, a 3x3x1 slab and a 2x2x3 block of voxels (4864 sets, each twice); Mesh::calc_edges / get_patches / get_patch_boundary_points: every ordered list of <= 3 faces over 5 vertices that is consistently wound and free of vertex-only contacts, 11 larger hand-built meshes of that class in 6 storage variants each, create_box (4 sizes) and create_cylinder (steps 3..=16, 2 sizes), repeated 2-3 times per mesh for hash order; every <= 3 face list with an edge in three faces must be refused; each group under a progress watchdog (6 s per input). Vertex-only contacts and inconsistent winding: see ROUND 4 and D7 below (patch boundaries are not evaluated on them). Edge lengths to relative 1e-12 on grids (1x1, 4x3, 12x9), boxes and 12-step cylinders of pitch 5e-6 .. 1 at 5 offsets up to 1e6 from the origin. get_patches on ANY face list (partition and edge-connected patches always, maximality when no directed edge occurs twice): all lists of <= 2 faces over 5 vertices x 64 calls, 3-face lists starting with [0,1,2] / [0,2,1] x 8 calls, box / cylinder / grid / strip / tetrahedron with single faces, pairs, every other and all faces flipped x 64 calls. chained_indices on 1..12 separate chains / closed loops of 1..9 links in 4 storage orders. ROUND 4: the hand-built meshes (+ a disk around the LAST vertex, a 4x4 grid) also with the vertex numbering reversed and with the interior vertices numbered last (lexicographically last edge interior); calc_edges on INCONSISTENTLY wound meshes whose boundary edges still give every boundary vertex one successor and one predecessor (closed surfaces with any faces flipped, disks with flipped interior faces): every such ordered list of 3 faces over 5 vertices and of 4 faces over 4 vertices, boxes / tetrahedron / octahedron / both / 3x3, 4x4, 5x3-with-holes grids with single faces, pairs, every 2nd, every 3rd and the first half of the faces flipped, in 2 storage variants: edge table produced (not Err), each undirected edge once with its length, face -> edges, boundary loops; LARGE vertex ids: two vertex-disjoint faces over a 70000-vertex list (3 first faces x every ordered triple of 8 ids on both sides of 2^16, incl. ids that collide when two ids are packed with a 16-bit shift) and two separate 40-face strips on ids 0.. and {65500, 65530, 65536, 69000}..: all clauses of the mesh group (edge table, patches, patch boundaries); D7 (repaired): calc_edges returns Err (and returns: 6 s watchdog) when no edge is in more than two faces but the boundary edges do not form closed loops - bow-ties, two grids sharing a corner, fins touching a grid at one vertex, 3x3 / 5x3-with-holes grids, a cylinder and an open box with single faces, pairs, every 2nd and the first half of the faces flipped (those outside class G), and every ordered list of 2 / 3 faces over 5 vertices outside class G. WAVE 5: index_vec (None x 18 lengths up to 65537, Some x 9 lists x 6 len); chained_indices on chains / closed loops of 31 .. 4097 links on vertex ids up to u32::MAX in 5 storage orders, every list of <= 3 pairs over {0, 1, 65536, u32::MAX - 1, u32::MAX}, 1100 / 4100 / 1030 separate chains, chains with branches; clusters_from_sparse on voxel pairs at every offset of [-3,3]^3 from 8 bases up to |coordinate| = i32::MAX - 1, voxels 2^k apart (k = 4 .. 30) listed twice, clusters of up to 5000 voxels, up to 1500 clusters; mesh clauses with sort-based oracles on 13 meshes of up to 46812 faces / 70530 edges / 1100 components / boundary loops of 4202 vertices in 3 storage variants and reversed numbering, class G and Err verdicts at that scale; total calc_edges verdict + patch clauses on every list [0,1,2] + 3 faces over 5 vertices (34220) and [0,1,2] + 2 ordered faces over 6 vertices (14400), Moebius band, projective plane, tetrahedra sharing a vertex / an edge, touching holes, coincident positions; faces with a repeated vertex (<= 2 faces over 4 vertices, 3-face lists with 5 first faces): calls return, every face in one patch; create_box on every ordered triple of 8 sizes 1e-9 .. 1e8 x is_solid; create_cylinder on 7 radii x 6 heights x 18 step counts, steps 3 ..= 70, and up to 32769 steps; edge lengths for pitches 1e-9 .. 1e6, offsets up to 1e8, up to 12416 edges");
     guarded(&mut r, "chaining", "pairs (flattened)", run_chains);
     guarded(&mut r, "voxels", "voxels (flattened x,y,z)", run_voxels);
     guarded(&mut r, "mesh", "faces (flattened)", run_small_meshes);
@@ -1794,6 +1907,7 @@ pub fn run() -> Option<Report> {
     guarded(&mut r, "index_vec", "case id", run_index_vec);
     guarded(&mut r, "chaining (long lists, large ids)", "case id", run_long_chains);
     guarded(&mut r, "voxels (large coordinates, large sets)", "case id / voxels", run_far_voxels);
+    if VOXEL_FULL_RANGE { guarded(&mut r, "[defect: voxel at the end of the i32 range] clusters_from_sparse", "case id / first voxel", run_voxel_range_ends); }
     guarded(&mut r, "mesh (thousands of faces)", "case id", run_large_meshes);
     guarded(&mut r, "mesh (total verdict)", "faces (flattened)", run_total_small);
     guarded(&mut r, "mesh (degenerate faces)", "faces (flattened)", run_degenerate);
